@@ -402,6 +402,81 @@ pub fn gen_verify(r: &mut Rng, tag: &str) -> String {
     format!("sim {} {}", tag, cmds.join(" ; "))
 }
 
+/// Two searches that reach ONE instance: its type and a subtype of it (or two subtypes) are browsed
+/// at the same time and the instance is advertised under both PTR names, in one packet or split
+/// over several.  Outside the fragment the client model predicts exactly (which PTR name the
+/// eviction visits first is hash order): the script carries `drop 0`, a link command without
+/// effect here, which takes it out of the fragment - judged by the monitors alone.  EACH channel
+/// must get ServiceFound and ServiceResolved by the end of the step that completes the set.
+pub fn gen_two_browses(r: &mut Rng, tag: &str) -> String {
+    let links = gen_links(r);
+    let mut cmds: Vec<String> = vec![format!("daemon {}", links.daemon), "ipint 0 100000".to_string(), "drop 0".to_string()];
+    let inst = gen_inst(r, 0);
+    let (name_a, name_b) = match r.below(3) {
+        0 => (inst.ty.clone(), format!("_printer._sub.{}", inst.ty)),
+        1 => (format!("_printer._sub.{}", inst.ty), inst.ty.clone()),
+        _ => (format!("_printer._sub.{}", inst.ty), format!("_scanner._sub.{}", inst.ty)),
+    };
+    let mut now = 1_000_000u64;
+    cmds.push(format!("run {}", now));
+    cmds.push(format!("browse 0 1 {}", hx(&name_a)));
+    if r.chance(1, 2) {
+        cmds.push(format!("run {}", now));
+    }
+    cmds.push(format!("browse 0 2 {}", hx(&name_b)));
+    cmds.push(format!("run {}", now));
+    let t = Ttls { ptr: 4500, srv: 120, txt: 4500, addr: 120 };
+    let ca = CInst { ptr_name: name_a, addr_owner: inst.host.clone(), inst: inst.clone(), ptr_flush: false };
+    let cb = CInst { ptr_name: name_b, addr_owner: inst.host.clone(), inst, ptr_flush: false };
+    let ra = recs(&ca, &t, true);
+    let ptr_b = recs(&cb, &t, true)[0].clone();
+    // all records: [ptrA, ptrB, srv, txt, addr...]
+    let mut all = vec![ra[0].clone(), ptr_b];
+    all.extend_from_slice(&ra[1..]);
+    let resp = |an: &[RecDesc], ad: &[RecDesc]| message(0x8400, vec![], an, &[], ad);
+    let (ifi, v4, src) = *r.pick(&links.rx);
+    let inj = |hexpkt: &str| format!("inject 0 {} {} {} 5353 {}", ifi, b(v4), src, hexpkt);
+    let mut parts: Vec<Vec<RecDesc>> = match r.below(5) {
+        0 => vec![all.clone()],
+        // the PTRs come last
+        1 => vec![all[2..].to_vec(), all[..2].to_vec()],
+        // both PTRs first, the rest in one or two packets
+        2 => vec![all[..2].to_vec(), all[2..4].to_vec(), all[4..].to_vec()],
+        // both PTRs in every packet
+        3 => vec![[&all[..2], &all[2..3]].concat(), [&all[..2], &all[3..]].concat()],
+        _ => {
+            // both PTRs with the SRV, then TXT and addresses with both PTRs again, shuffled order
+            let mut v = vec![[&all[..2], &all[4..]].concat(), [&all[..2], &all[2..4]].concat()];
+            if r.chance(1, 2) {
+                v.swap(0, 1);
+            }
+            v
+        }
+    };
+    if r.chance(1, 4) {
+        let d = parts[0].clone();
+        parts.push(d); // a duplicate
+    }
+    for p in parts {
+        if r.chance(1, 2) {
+            cmds.push(inj(&resp(&p, &[])));
+        } else {
+            // PTRs as answers, the rest as additionals
+            let (an, ad): (Vec<RecDesc>, Vec<RecDesc>) = p.iter().cloned().partition(|x| x.ty == 12);
+            if an.is_empty() { cmds.push(inj(&resp(&ad, &[]))) } else { cmds.push(inj(&resp(&an, &ad))) }
+        }
+        if r.chance(2, 3) {
+            now += *r.pick(&[0u64, 1, 100, 600]);
+            cmds.push(format!("run {}", now));
+        }
+    }
+    now += *r.pick(&[10u64, 700, 3000]);
+    cmds.push(format!("run {}", now));
+    now += 2000;
+    cmds.push(format!("run {}", now));
+    format!("sim {} {}", tag, cmds.join(" ; "))
+}
+
 pub fn generate(r: &mut Rng, prop: &str, tier: &str, emit: &mut dyn FnMut(String)) {
     let n = if tier == "thorough" { 3000 } else { 300 };
     let (tag, focus): (&'static str, Focus) = match prop {
@@ -412,6 +487,10 @@ pub fn generate(r: &mut Rng, prop: &str, tier: &str, emit: &mut dyn FnMut(String
     for k in 0..n {
         if prop == "C05" && k % 10 == 9 {
             emit(gen_verify(r, tag));
+            continue;
+        }
+        if prop == "C04" && k % 10 == 7 {
+            emit(gen_two_browses(r, tag));
             continue;
         }
         if k % 4 == 3 {
